@@ -342,6 +342,9 @@ class EngineBase:
     def coerce_to(self, st, v, kind):
         if isinstance(v, SVal) and v.kind == kind:
             return v
+        if isinstance(v, tuple) and v and isinstance(v[0], str) and v[0] in ('view', 'range', 'zip', 'enumerate') \
+                and isinstance(kind, KList):
+            return self.materialize(st, self.Frame(None, 'coerce', None), v, kind.elem)
         if isinstance(v, LocalDict):
             if isinstance(kind, KRef):
                 sc = self.schema(kind.cls)
